@@ -54,8 +54,9 @@ def run_standard(mod, ctx):
             exe = vcore.build_hx(ctx, cfg[0], cfg[2])
             t = time.time()
             impl_out, crashed = vcore.run_impl(ctx, exe, lines, cfg[1])
+            fl, _ = vcore.run_impl(ctx, exe, ["rt.flags"], cfg[1])
             ctx.configs_run.append({"variant": cfg[0], "mask": cfg[1] or "none", "flavour": cfg[2], "ops": len(lines),
-                                    "wall_s": round(time.time() - t, 2)})
+                                    "wall_s": round(time.time() - t, 2), "runtime_flags": fl[0] if fl else None})
             # enum lines: refine to the first differing case before reporting
             lines2, m2, i2 = list(lines), list(model_out), list(impl_out)
             for k, ln in enumerate(lines):
